@@ -609,8 +609,17 @@ var runCount int
 
 func oneRun(c *reg.Ctx, nSep, nShared, perClient, procs int) {
 	runCount++
-	dir := filepath.Join(c.Scratch, fmt.Sprintf("run%d", runCount))
-	os.MkdirAll(dir, 0o700)
+	// Linearizability does not depend on durability: a memory-backed directory
+	// makes the update transactions as short as the read transactions, so that
+	// many more interleavings of reads and updates occur per run.
+	base := c.Scratch
+	if fi, err := os.Stat("/dev/shm"); err == nil && fi.IsDir() {
+		base = "/dev/shm"
+	}
+	dir, err := os.MkdirTemp(base, "verif-c26-")
+	if err != nil {
+		panic(err)
+	}
 	defer os.RemoveAll(dir)
 	sock, db := filepath.Join(dir, "sock"), filepath.Join(dir, "db")
 	class := "separate"
